@@ -272,7 +272,7 @@ def run(tier, seed):
         # (1) histories, one command at a time
         profile = {"restart": 0, "deploy": 8, "deploy_fail": 2, "rollout_deploy": 3, "rollout_set": 2, "rollout_stop": 1,
                    "pause": 3, "stop": 2, "resume": 3, "remove": 2}
-        hists = [m4.gen_history(rnd, rnd.randint(3, 8), profile) for _ in range(12 if quick else 150)]
+        hists = [m4.gen_history(rnd, rnd.randint(3, 8), profile) for _ in range(12 if quick else 100)]
         for _ in range(1 if quick else 10):
             hists += kind_histories(rnd)
         for h in hists:
@@ -280,7 +280,7 @@ def run(tier, seed):
             meta.append({"kind": "history", "history": jsonable(h)})
         # (2) overlapping pairs: random pairs under random schedules
         scheds = all_schedules()
-        for _ in range(40 if quick else 400):
+        for _ in range(40 if quick else 300):
             setup, a, b = gen_pair(rnd)
             s = rnd.choice(scheds)
             scen.append(pair_scenario(setup, a, b, s))
@@ -289,7 +289,7 @@ def run(tier, seed):
         fixed = [([dep(b"web", b"a.example.com", [b"ta:80"])], {"op": "pause", "name": b"web", "fail_after": SEC},
                   dep(b"api", b"b.example.com", [b"tb:80"]))]
         if not quick:
-            for _ in range(5):
+            for _ in range(3):
                 fixed.append(gen_pair(rnd))
         for setup, a, b in fixed:
             for s in (scheds if not quick else rnd.sample(scheds, 60)):
@@ -342,6 +342,8 @@ def run(tier, seed):
                     "schedules of the snapshot steps of two overlapping commands; a crash point is non-trivial when a command is parked "
                     "inside its snapshot, distinct by (yield, commands in progress, file content, configuration in force)",
             "scenarios": len(scen), "scenario_kinds": kinds, "tree_variant_detected": variant,
+            "input_distribution": {"scenario_kinds": kinds, "crash_points_by_yield": dist_point, "commands_and_results": dist_cmd},
+            "outcome_distribution": dist_file,
             "crash_points_by_yield": dist_point, "file_at_crash_point": dist_file, "command_results": dist_cmd,
             "steps_that_hit_the_settle_bound": unsettled, "scenarios_with_goroutines_left_parked": stuck,
             "traces_validated_against_impl": len(verdicts),
